@@ -48,14 +48,27 @@ def plan(tier, seed):
 
 def _plan(tier, seed):
     if tier == 'quick':
-        return shard('constructive', 400, 10)
-    return shard('constructive', 12000, 32)
+        return shard('constructive', 400, 10) + shard('plates', 80, 4)
+    return shard('constructive', 12000, 32) + shard('plates', 2000, 12)
+
+
+def plates(rng, case, idx):
+    """fill_to on plates, slices, slices of slices and list selections: each addressed well is filled as a stand-alone
+    container would be, by adding only the solvent, and no other well changes."""
+    from pv.gen import World
+    from pv.monitors import M
+    w = World(rng, case)
+    w.check_aliasing = False
+    w.populate(n_containers=rng.randint(1, 2), n_plates=rng.randint(1, 2))
+    M.bucket('C11/plates')
+    for _ in range(rng.randint(6, 16)):
+        w.history_step({'cp': 3, 'fill': 8, 'pc': 1, 'remove': 1})
 
 
 def run_job(job):
     if job['kind'] == 'repo_suite':
         return run_cases(job, repo_suite)
-    return run_cases(job, constructive)
+    return run_cases(job, plates if job['kind'] == 'plates' else constructive)
 
 
 def spell_conc(rng, value, num, den, solute):
